@@ -134,6 +134,11 @@ func runSearch(a map[string]string) {
 		for k, v := range r6 {
 			results["reuse:"+k] += v
 		}
+		e9, r9 := runParseTargets(g, hx.ArgInt(a, "parse", 2), emit)
+		evals += e9
+		for k, v := range r9 {
+			results["parse:"+k] += v
+		}
 		e7, r7 := runConcurrent(g, hx.ArgInt(a, "workers", 8), hx.ArgInt(a, "perworker", 6), hx.ArgInt(a, "loops", 3), emit)
 		evals += e7
 		for k, v := range r7 {
@@ -195,6 +200,10 @@ func runSearch(a map[string]string) {
 		msg := g.msgClass(mc)
 		if (mc == 4 || mc == 5) && (i/8)%2 == 0 {
 			sk = big.NewInt(1) // the signature itself then has the short coordinate
+		}
+		if i%8 == 2 || i%8 == 3 {
+			// public keys whose 128-byte encoding starts with 0x00 / has another leading-zero coordinate
+			sk = g.leadingZeroPubkeySk((i % 8 - 2) * (1 + i/8%3))
 		}
 		pk := groupsig.GeneratePubkey(seckeyOf(sk))
 		pkb := pk.Serialize()
